@@ -18,6 +18,10 @@ type realFS struct {
 	// This stores data that will end up being returned by "WatchData()"
 	watchData map[string]privateWatchData
 
+	// This stores what each symbolic link that was followed resolved to (or an
+	// empty string if that failed). It's only used in watch mode.
+	watchSymlinks map[string]string
+
 	// When building with WebAssembly, the Go compiler doesn't correctly handle
 	// platform-specific path behavior. Hack around these bugs by compiling
 	// support for both Unix and Windows paths into all executables and switch
@@ -106,14 +110,17 @@ func RealFS(options RealFSOptions) (FS, error) {
 
 	// Only allocate memory for watch data if necessary
 	var watchData map[string]privateWatchData
+	var watchSymlinks map[string]string
 	if options.WantWatchData {
 		watchData = make(map[string]privateWatchData)
+		watchSymlinks = make(map[string]string)
 	}
 
 	var result FS = &realFS{
 		entries:           make(map[string]entriesOrErr),
 		fp:                fp,
 		watchData:         watchData,
+		watchSymlinks:     watchSymlinks,
 		doNotCacheEntries: options.DoNotCache,
 	}
 
@@ -421,6 +428,19 @@ func (fs *realFS) kind(dir string, base string) (symlink string, kind EntryKind)
 	// Follow symlinks now so the cache contains the translation
 	if (mode & os.ModeSymlink) != 0 {
 		link, err := fs.fp.evalSymlinks(entryPath)
+
+		// Store data for watch mode (the directory entry itself doesn't change
+		// when a symbolic link is pointed somewhere else)
+		if fs.watchSymlinks != nil {
+			fs.watchMutex.Lock()
+			if err != nil {
+				fs.watchSymlinks[entryPath] = ""
+			} else {
+				fs.watchSymlinks[entryPath] = link
+			}
+			fs.watchMutex.Unlock()
+		}
+
 		if err != nil {
 			return // Skip over this entry
 		}
@@ -534,6 +554,18 @@ func (fs *realFS) WatchData() WatchData {
 				}
 				return ""
 			}
+		}
+	}
+
+	// Also detect when a symbolic link that was followed now leads somewhere else
+	for path, link := range fs.watchSymlinks {
+		path := path
+		link := link
+		paths[path+" (symbolic link)"] = func() string {
+			if newLink, err := fs.fp.evalSymlinks(path); (err != nil) != (link == "") || (err == nil && newLink != link) {
+				return path
+			}
+			return ""
 		}
 	}
 
